@@ -454,6 +454,10 @@ public:
    */
   void createNode(Nref objectOriginNode, Nref newNodeObject, Eref newEdgeObject = 00)
   {
+    if (!hasNode(objectOriginNode))
+      throw Exception("AssociationGraphImplObserver::createNode : origin node is not in the graph observer: " + nodeToString(objectOriginNode));
+    if (newEdgeObject != 00 && hasEdge(newEdgeObject))
+      throw Exception("AssociationGraphImplObserver::createNode : edge already exists: " + edgeToString(newEdgeObject));
     createNode(newNodeObject);
     link(objectOriginNode, newNodeObject, newEdgeObject);
   }
